@@ -1,5 +1,6 @@
 (** * C17 — momentum agents trade symmetrically in rising and falling markets *)
-From Bourse Require Import Model.Types Model.Side Model.Book Model.Rng Model.Float Model.Env Model.Agents Proofs.AgentProps Proofs.AgentDir.
+From Coq Require Import ZArith NArith.
+From Bourse Require Import Model.Types Model.Side Model.Book Model.Rng Model.Float Model.Env Model.Agents Proofs.AgentProps Proofs.AgentDir Proofs.FloatSym.
 
 (** When the momentum signal is exactly zero a trader submits nothing. *)
 Theorem c17_flat_no_orders : forall ln e c a p mid pl pm trader live e' c' live',
@@ -38,9 +39,52 @@ Theorem c17_opposite_signal_opposite_sign : forall m : f64,
   fgt (BinarySingleNaN.Bopp m) f_zero = flt m f_zero /\ flt (BinarySingleNaN.Bopp m) f_zero = fgt m f_zero.
 Proof. exact sign_of_opp. Qed.
 
+(** Mirroring. [mirror x y]: [y] is the negation of [x], up to the sign of a zero.
+    One step of a run and of its mirror image, with mid-prices [a/2], [b/2] (now, last
+    time) and mirrored mid-prices [a'/2], [b'/2] reflected about a fixed level
+    ([a' - b' = b - a]; prices are half-integers below 2^51, exactly representable, and
+    their differences are exact in binary64: [mirrored_move]): if the carried signals
+    are mirrored, then the new signals are mirrored, the propensity
+    [|demand * tanh(scale * M) / n|] is *equal* (and with it the limit-order
+    probability, a multiple of it), and the direction tests are exchanged - the
+    mirrored agent sells exactly when the original buys. Binary64 round-to-nearest
+    arithmetic is sign-symmetric ([fmul_opp_l], [fmul_opp_r], [fdiv_opp_l], [fadd_opp]);
+    of the [tanh] oracle it is assumed that it is odd and maps zeros to zeros. By
+    induction over the steps (the first look carries M = 0 on both sides), with the same
+    seed the two runs make the same draws against the same probabilities: buys become
+    sells of the same size at the same steps. *)
+Theorem c17_mirrored_history_step : forall tanh64
+  (tanh_odd : forall x, T tanh64 (BinarySingleNaN.Bopp x) = BinarySingleNaN.Bopp (T tanh64 x))
+  (tanh_zero : forall x, is_zero x -> is_zero (T tanh64 x))
+  p n mom mom' a b a' b',
+  (Z.of_N a < 2 ^ 52)%Z -> (Z.of_N b < 2 ^ 52)%Z -> (Z.of_N a' < 2 ^ 52)%Z -> (Z.of_N b' < 2 ^ 52)%Z ->
+  (Z.of_N a' - Z.of_N b' = Z.of_N b - Z.of_N a)%Z ->
+  mirror mom mom' ->
+  let m := mom_signal p mom (h a) (h b) in let m' := mom_signal p mom' (h a') (h b') in
+  mirror m m' /\ propensity tanh64 p n m' = propensity tanh64 p n m /\
+  fgt m' f_zero = flt m f_zero /\ flt m' f_zero = fgt m f_zero.
+Proof. exact mirrored_history_step. Qed.
+
+(** the signal and the propensity of the theorem are the ones the agent computes, and the
+    mid-price it reads is the half-integer embedding [h] *)
+Theorem c17_agent_uses_signal_and_propensity : forall lognormal tanh64 k e c a orders first n p lp mom,
+  agent_update lognormal tanh64 k e c (AMomentum a orders first n p (Some lp) mom) =
+  (do (e1, c1, live) <- cancel_live_orders e c a orders (mp_p_cancel p);
+   do mid <- mid_f64 e1 a;
+   let m := mom_signal p mom mid lp in
+   let p_market := propensity tanh64 p n m in
+   do (e2, c2, live') <- for_traders (fun s tr => let '(e, c, l) := s in
+                             mom_trader (lognormal k) e c a p mid m (fmul (f_of_bits (mp_ratio p)) p_market) p_market tr l)
+                           (e1, c1, live) first (N.to_nat n);
+   Ok (e2, c2, AMomentum a live' first n p (Some mid) m)).
+Proof. reflexivity. Qed.
+
 Check c17_flat_no_orders.
 Check c17_direction_follows_sign.
+Check c17_mirrored_history_step.
 Print Assumptions c17_flat_no_orders.
 Print Assumptions c17_probability_ignores_sign.
 Print Assumptions c17_direction_follows_sign.
 Print Assumptions c17_opposite_signal_opposite_sign.
+Print Assumptions c17_mirrored_history_step.
+Print Assumptions c17_agent_uses_signal_and_propensity.
